@@ -194,7 +194,8 @@ def sample_of(idx, ctx):
 def spawn(args, hashseed):
     env = dict(os.environ)
     env["PYTHONHASHSEED"] = str(hashseed)
-    env["PYTHONDONTWRITEBYTECODE"] = "1"
+    env.pop("PYTHONDONTWRITEBYTECODE", None)
+    env["LEAGUESIM_PYC"] = os.path.join(args["scratch"], "pyc")
     for k in list(env):
         if k.startswith("COVERAGE") or k.startswith("COV_CORE"):
             del env[k]
@@ -376,7 +377,7 @@ def finish(prop, tier, seed, t0, scratch, summaries, hs_summ, viols, herr, W, n_
             continue
         seen_cls.add(v["cls"])
         rep = json.load(open(v["path"]))
-        dest_dir = os.path.join(core.VERIF_DIR, "replays", prop)
+        dest_dir = os.path.join(core.OUT_DIR, "replays", prop)
         os.makedirs(dest_dir, exist_ok=True)
         dest = os.path.join(dest_dir, os.path.basename(v["path"]))
         shutil.copyfile(v["path"], dest)
@@ -453,7 +454,7 @@ def finish(prop, tier, seed, t0, scratch, summaries, hs_summ, viols, herr, W, n_
     for k, must in PROBES_EXPECTED.get(prop, {}).items():
         if probes.get(k, faults.get(k, 0)) < must:
             ev["assumptions"].append("probe '%s' stayed below %d in this batch (%d): that corner was not reached" % (k, must, probes.get(k, faults.get(k, 0))))
-    evdir = os.path.join(core.VERIF_DIR, "evidence")
+    evdir = os.path.join(core.OUT_DIR, "evidence")
     os.makedirs(evdir, exist_ok=True)
     with open(os.path.join(evdir, "%s.json" % prop), "w") as f:
         json.dump(ev, f, indent=1)
